@@ -35,6 +35,116 @@ theorem wrap_sub_wrap_left (ty : Ty) (x y : Int) : wrap ty (wrap ty x - y) = wra
 theorem wrap_sub_wrap_right (ty : Ty) (x y : Int) : wrap ty (x - wrap ty y) = wrap ty (x - y) := by
   cases ty <;> simp [wrap, Ty.signed, Ty.bits] <;> omega
 
+/-! ### `/ %` and `>>` produce values -/
+
+/-- truncating remainder through absolute values -/
+theorem tmod_eq_abs (a b : Int) :
+    Int.tmod a b = if a < 0 then -((if a < 0 then -a else a) % (if b < 0 then -b else b))
+                   else (if a < 0 then -a else a) % (if b < 0 then -b else b) := by
+  by_cases ha : a < 0 <;> by_cases hb' : b < 0 <;> simp only [ha, hb', if_true, if_false, Int.emod_neg]
+  · have h := Int.neg_tmod (-a) b
+    rw [Int.neg_neg] at h; rw [h, Int.tmod_eq_emod_of_nonneg (by omega)]
+  · have h := Int.neg_tmod (-a) b
+    rw [Int.neg_neg] at h; rw [h, Int.tmod_eq_emod_of_nonneg (by omega)]
+  · rw [Int.tmod_eq_emod_of_nonneg (by omega)]
+  · rw [Int.tmod_eq_emod_of_nonneg (by omega)]
+
+/-- the truncating remainder of two values of a type is a value of the type -/
+theorem tmod_inRange (ty : Ty) (a b : Int) (ha : InRange ty a) (hb : InRange ty b) (h0 : b ≠ 0) :
+    InRange ty (Int.tmod a b) := by
+  rw [tmod_eq_abs]
+  have hpos : 0 < (if b < 0 then -b else b) := by split <;> omega
+  have h1 := Int.emod_nonneg (if a < 0 then -a else a) (Int.ne_of_gt hpos)
+  have h2 := Int.emod_lt_of_pos (if a < 0 then -a else a) hpos
+  generalize (if a < 0 then -a else a) % (if b < 0 then -b else b) = r at h1 h2 ⊢
+  cases ty <;> simp [InRange, Ty.minVal, Ty.maxVal, Ty.signed, Ty.bits] at ha hb ⊢ <;>
+    split <;> split at h2 <;> omega
+
+/-- bounds of the truncating quotient: between `-|a|` and `|a|`, and strictly inside for `|b| ≥ 2`, `a ≠ 0` -/
+theorem tdiv_bounds (a b : Int) :
+    (0 ≤ a → 0 < b → 0 ≤ Int.tdiv a b ∧ Int.tdiv a b ≤ a) ∧
+    (0 ≤ a → b < 0 → -a ≤ Int.tdiv a b ∧ Int.tdiv a b ≤ 0) ∧
+    (a < 0 → 0 < b → a ≤ Int.tdiv a b ∧ Int.tdiv a b ≤ 0) ∧
+    (a < 0 → b < 0 → 0 ≤ Int.tdiv a b ∧ Int.tdiv a b ≤ -a ∧ (b ≤ -2 → Int.tdiv a b < -a)) := by
+  have pos : ∀ x c : Int, 0 ≤ x → 0 < c → 0 ≤ x / c ∧ x / c ≤ x := fun x c hx hc =>
+    ⟨Int.ediv_nonneg hx (Int.le_of_lt hc), Int.ediv_le_self c hx⟩
+  have strict : ∀ x c : Int, 0 < x → 2 ≤ c → x / c < x := fun x c hx hc => by
+    apply Int.ediv_lt_of_lt_mul (by omega)
+    have := Int.mul_le_mul_of_nonneg_left hc (Int.le_of_lt hx)
+    omega
+  refine ⟨fun ha hb => ?_, fun ha hb => ?_, fun ha hb => ?_, fun ha hb => ?_⟩
+  · rw [Int.tdiv_eq_ediv_of_nonneg ha]; exact pos a b ha hb
+  · have h := Int.tdiv_neg a (-b); rw [Int.neg_neg] at h
+    rw [h, Int.tdiv_eq_ediv_of_nonneg ha]
+    have := pos a (-b) ha (by omega); omega
+  · have h := Int.neg_tdiv (-a) b; rw [Int.neg_neg] at h
+    rw [h, Int.tdiv_eq_ediv_of_nonneg (by omega)]
+    have := pos (-a) b (by omega) hb; omega
+  · have h := Int.neg_tdiv (-a) b; rw [Int.neg_neg] at h
+    have h2 := Int.tdiv_neg (-a) (-b); rw [Int.neg_neg] at h2
+    rw [h, h2, Int.neg_neg, Int.tdiv_eq_ediv_of_nonneg (by omega)]
+    have := pos (-a) (-b) (by omega) (by omega)
+    refine ⟨this.1, this.2, fun hb2 => strict (-a) (-b) (by omega) (by omega)⟩
+
+theorem tdiv_inRange (ty : Ty) (a b : Int) (ha : InRange ty a) (hb : InRange ty b)
+    (h : ¬ divUndefined ty a b) : InRange ty (Int.tdiv a b) := by
+  have hb0 : b ≠ 0 := fun h0 => h (Or.inl h0)
+  obtain ⟨h1, h2, h3, h4⟩ := tdiv_bounds a b
+  simp only [divUndefined, not_or, not_and] at h
+  have hm := h.2
+  generalize Int.tdiv a b = q at *
+  cases ty <;> simp [InRange, Ty.minVal, Ty.maxVal, Ty.signed, Ty.bits] at ha hb hm ⊢ <;> omega
+
+theorem ediv_pow_inRange (ty : Ty) (a : Int) (c : Nat) (ha : InRange ty a) : InRange ty (a / 2 ^ c) := by
+  have hp : (0:Int) < 2 ^ c := Int.pow_pos (by omega)
+  have hlo : min a 0 ≤ a / 2 ^ c := by
+    by_cases h : 0 ≤ a
+    · have := Int.ediv_nonneg h (Int.le_of_lt hp); omega
+    · have h1 : a * 2 ^ c ≤ a * 1 := Int.mul_le_mul_of_nonpos_left (by omega) (by omega)
+      have := (Int.le_ediv_iff_mul_le hp).2 (by omega : a * 2 ^ c ≤ a); omega
+  have hhi : a / 2 ^ c ≤ max a 0 := by
+    by_cases h : 0 ≤ a
+    · have := Int.ediv_le_self (2 ^ c) h; omega
+    · have := Int.ediv_neg_of_neg_of_pos (by omega : a < 0) hp; omega
+  cases ty <;> simp [InRange, Ty.minVal, Ty.maxVal, Ty.signed, Ty.bits] at ha ⊢ <;> omega
+
+/-- a logical right shift of a non-negative value is the floor division -/
+theorem shiftRight_logical (a : Int) (c : Nat) (ha : 0 ≤ a) : Int.ofNat (a.toNat >>> c) = a / 2 ^ c := by
+  rw [Nat.shiftRight_eq_div_pow]
+  have : a = (a.toNat : Int) := (Int.toNat_of_nonneg ha).symm
+  conv => rhs; rw [this]
+  simp
+
+/-- **The specification is closed on values**: every defined result of an operation on values of a
+    type is a value of the type. -/
+theorem binop_inRange (ty : Ty) (op : Op) (a b v : Int) (ha : InRange ty a) (hb : InRange ty b)
+    (h : binop ty op a b = some v) : InRange ty v := by
+  cases op <;> simp only [binop] at h
+  case add | sub | mul | and | or | xor => replace h := Option.some.inj h; rw [← h]; exact wrap_inRange ty _
+  case div =>
+    split at h
+    · simp at h
+    · rename_i hd; replace h := Option.some.inj h; rw [← h]; exact tdiv_inRange ty a b ha hb hd
+  case rem =>
+    split at h
+    · simp at h
+    · rename_i hd; replace h := Option.some.inj h; rw [← h]
+      exact tmod_inRange ty a b ha hb (fun h0 => hd (Or.inl h0))
+  case shl =>
+    split at h
+    · replace h := Option.some.inj h; rw [← h]; exact wrap_inRange ty _
+    · simp at h
+  case shr =>
+    split at h
+    · replace h := Option.some.inj h
+      split at h
+      · rw [← h]; exact ediv_pow_inRange ty a _ ha
+      · rename_i hsg
+        have ha0 : 0 ≤ a := by
+          cases ty <;> simp [Ty.signed] at hsg <;> simp [InRange, Ty.minVal, Ty.signed] at ha <;> omega
+        rw [← h, shiftRight_logical a _ ha0]; exact ediv_pow_inRange ty a _ ha
+    · simp at h
+
 /-- casts produce values -/
 theorem cast_inRange (to : Ty) (v : Int) : InRange to (cast to v) := wrap_inRange to v
 
